@@ -11,7 +11,7 @@ git -C /repo worktree remove --force $WT 2>/dev/null || true
 rm -rf $WT $VS
 git -C /repo worktree add --detach $WT HEAD >/dev/null 2>&1
 git -C $WT apply $rev "$patch"
-rsync -a --delete --exclude .git /verif/ $VS/
+rsync -a --delete --exclude .git --exclude replays /verif/ $VS/ || rsync -a --exclude .git --exclude replays /verif/ $VS/ || true
 for id in "$@"; do
   (cd $VS && VERIF_REPO=$WT ./check $id; echo "exit=$?") 2>&1 | tail -6
 done
